@@ -2,6 +2,7 @@ CONSTANTS
   SeriesFirst = FALSE
   CommitSeqBeforeWrite = FALSE
   FreezeBeforeMetaFlush = FALSE
+  ExpireOnConsumed = FALSE
   AtomicRound = TRUE
   Name = {"m1", "m2"}
   MaxEntries = 3
